@@ -29,6 +29,8 @@ type env struct {
 	d   *h.Driver
 	rnd *h.Rand
 	g   *codecx.Gen
+
+	sigSeen map[string]int
 }
 
 // outcome of the implementation in the driver's vocabulary
@@ -139,11 +141,18 @@ func (e *env) roundTrip(stream string, t reflect.Type, v reflect.Value, sig stri
 	}
 }
 
+// fail records an oracle failure. The result keeps at most 50 of them: failures that match a known signature are
+// recorded three times per signature (and counted), so that they cannot crowd out an unclassified one.
 func (e *env) fail(c, sig, detail string) {
-	e.r.Fail(trunc(c, 2000), sig, detail)
 	if sig != "" {
 		e.r.Confirm(sig, trunc(c, 300)+": "+detail)
+		e.sigSeen[sig]++
+		if e.sigSeen[sig] > 3 {
+			e.r.Hit("oracle-fail:" + sig)
+			return
+		}
 	}
+	e.r.Fail(trunc(c, 2000), sig, detail)
 }
 
 // firstDiff shows the surroundings of the first difference of two value texts.
@@ -210,6 +219,9 @@ func classify(x interface{}) string {
 		}
 		mask, alen, _, dims, value := ua.VerifVariantFields(v)
 		isArr := mask&ua.VariantArrayValues != 0
+		if isArr && alen < -1 {
+			return "C01.variant-nil-inner-slice"
+		}
 		if len(dims) >= 2 {
 			for _, d := range dims {
 				if d == 0 {
@@ -273,6 +285,8 @@ func (e *env) findings() {
 	run([][]int32{})
 	run([][]byte{{1}, {2}})
 	run([][][]int32{{{1}, {2}}, {{3, 4}, {5, 6}}})
+	run([][]int32{nil, nil})
+	run([][][]string{{nil}, {nil}})
 	// NewVariant refuses arrays of ByteStrings of different lengths (taken for an unbalanced matrix): compared with the model only
 	run([][]byte{{1}, {2, 3}})
 	n := e.o.N(40, 2000)
@@ -331,7 +345,7 @@ func (e *env) registered() {
 }
 
 func (e *env) builtins() {
-	n := e.o.N(250, 12000)
+	n := e.o.N(250, 3000)
 	ts := []reflect.Type{
 		reflect.TypeOf((*ua.Variant)(nil)), reflect.TypeOf((*ua.DataValue)(nil)), reflect.TypeOf((*ua.DiagnosticInfo)(nil)),
 		reflect.TypeOf((*ua.NodeID)(nil)), reflect.TypeOf((*ua.ExpandedNodeID)(nil)), reflect.TypeOf((*ua.LocalizedText)(nil)),
@@ -379,7 +393,7 @@ func main() {
 	}
 	defer d.Close()
 	rnd := h.NewRand(o.Seed)
-	e := &env{o: o, r: r, d: d, rnd: rnd}
+	e := &env{o: o, r: r, d: d, rnd: rnd, sigSeen: map[string]int{}}
 	e.g = &codecx.Gen{R: rnd, Reg: codecx.RegisteredTypes(), MaxDepth: 2, Hit: nil}
 	r.Rule = "case = (type, value): real ua.Encode / ua.Decode vs the Lean encode / decode on the same value and bytes; non-trivial = the encoding has more than one byte; distinct by (type, canonical value text)"
 	e.findings()
